@@ -316,12 +316,41 @@ func c19R4(c *Ctx, r *Report) {
 		}
 		removed = sl
 	})
-	if kept == nil || removed == nil {
-		r.Bad(rule, fnKey(fn)+" / bookkeeping", "Purge does not both iterate a tail of the version list for removal and keep the remaining head")
+	// where the removal starts: Versions[b:] ranged over, or an index loop over Versions that starts at b
+	var removedLow ssa.Value
+	removedHighOpen := true
+	if removed != nil {
+		removedLow, removedHighOpen = removed.Low, removed.High == nil
 	} else {
-		okKeep := kept.Low == nil && kept.High != nil && removed.Low != nil && removed.High == nil && kept.High == removed.Low
+		eachInstr(fn, func(in ssa.Instruction) {
+			ia, ok := in.(*ssa.IndexAddr)
+			if !ok || !fieldLoadOf(ia.X, "updater.Resource", "Versions") {
+				return
+			}
+			if ph, ok := ia.Index.(*ssa.Phi); ok {
+				for i, e := range ph.Edges {
+					// the edge entering the loop from outside carries the start index
+					if bo, isAdd := e.(*ssa.BinOp); isAdd && bo.Op == token.ADD && (bo.X == ssa.Value(ph) || bo.Y == ssa.Value(ph)) {
+						continue
+					}
+					_ = i
+					removedLow = e
+				}
+			}
+		})
+	}
+	if kept == nil || removedLow == nil {
+		r.Undecided(rule, fnKey(fn)+" / bookkeeping", "could not identify both the kept head Versions[:b] and the start of the purged tail (range over Versions[b:] or index loop from b)")
+	} else {
+		same := kept.High == removedLow
+		if !same && kept.High != nil {
+			a, okA := constInt(kept.High)
+			b, okB := constInt(removedLow)
+			same = okA && okB && a == b
+		}
+		okKeep := kept.Low == nil && kept.High != nil && removedHighOpen && same
 		r.Check(okKeep, rule, fnKey(fn)+" / kept versus purged entries", "files of Versions[boundary:] are removed and Versions[:boundary] is kept",
-			fmt.Sprintf("the entries kept (Versions[%s:%s]) are not the complement of the entries purged (Versions[%s:%s]): the resource lists versions whose files were just deleted", valStr(kept.Low), valStr(kept.High), valStr(removed.Low), valStr(removed.High)))
+			fmt.Sprintf("the entries kept (Versions[%s:%s]) are not the complement of the entries purged (from index %s on): the resource lists versions whose files were just deleted", valStr(kept.Low), valStr(kept.High), valStr(removedLow)))
 	}
 	// stable predicate = PreRelease flag (sibling: selectVersion stage 4)
 	usesFlag := funcHas(fn, 0, func(in ssa.Instruction) bool {
